@@ -9,6 +9,16 @@ namespace CtyModel
 namespace JsonVal
 open Ty
 
+/-- position-exactness against the constraint the decoder works with (annotations already
+dropped by `Unmarshal`): `exact t vt p = exact0 t.stripOpt vt p` (`exact_eq_exact0`) -/
+def exact0 (t vt : Ty) (p : Payload) : Bool := if t.isDyn then exactK vt vt p else exactK t vt p
+
+theorem isDyn_stripOpt (t : Ty) : t.stripOpt.isDyn = t.isDyn := by
+  cases t <;> simp [stripOpt, Ty.isDyn]
+
+theorem exact_eq_exact0 (t vt : Ty) (p : Payload) : exact t vt p = exact0 t.stripOpt vt p := by
+  simp [exact, exact0, isDyn_stripOpt]
+
 /-! ### small facts about the observers -/
 
 theorem isMarked_of_containsMarked {p : Payload} (h : p.containsMarked = false) : p.isMarked = false := by
@@ -207,7 +217,7 @@ theorem strsFixedL_mem {norm : String → String} : ∀ {vs : List Payload}, str
     · exact strsFixedL_mem h.2 v hv
 
 theorem exactAll_mem {e ve : Ty} : ∀ {vs : List Payload}, exactAll e ve vs = true →
-    ∀ v ∈ vs, exact e ve v = true
+    ∀ v ∈ vs, exact0 e ve v = true
   | [], _, _, hv => by simp at hv
   | x :: xs, h, v, hv => by
     simp only [exactAll, Bool.and_eq_true] at h
@@ -235,7 +245,7 @@ theorem numOK_spec {x : Num} (h : numOK x = true) :
 
 /-- per-position hypotheses of a tuple / an object -/
 def ZipH (norm : String → String) : List Ty → List Ty → List Payload → Prop
-  | e :: es, ve :: ves, v :: vs => (RT norm e ve v ∧ exact e ve v = true) ∧ ZipH norm es ves vs
+  | e :: es, ve :: ves, v :: vs => (RT norm e ve v ∧ exact0 e ve v = true) ∧ ZipH norm es ves vs
   | [], [], [] => True
   | _, _, _ => False
 
@@ -267,7 +277,7 @@ def Good (env : JEnv) (t vt : Ty) (p : Payload) (mj : Res Json) : Prop :=
 
 /-- the prologue of `marshal` (marks, unknown, dynamic wrapper) on top of the body -/
 theorem rt_entry (env : JEnv) (p : Payload) (t vt : Ty) (h : RT env.norm t vt p)
-    (hx : exact t vt p = true)
+    (hx : exact0 t vt p = true)
     (hb : ∀ t', RT env.norm t' vt p → exactK t' vt p = true → (t'.isDyn = true → vt.isDyn = true) →
       Good env t' vt p (marshalKnown env t' vt p)) :
     Good env t vt p (marshalEntry t vt p (fun t' => marshalKnown env t' vt p)) := by
@@ -281,18 +291,18 @@ theorem rt_entry (env : JEnv) (p : Payload) (t vt : Ty) (h : RT env.norm t vt p)
     have ht : t = .dyn := isDyn_iff.mp hd.1
     subst ht
     obtain ⟨tj, htj, hof⟩ := Ty.json_roundtrip env.norm vt h.wvt h.noCaps h.names
-    have hx' : exactK vt vt p = true := by simpa [exact, Ty.isDyn] using hx
+    have hx' : exactK vt vt p = true := by simpa [exact0, Ty.isDyn] using hx
     obtain ⟨j, p', hj, hu, hs⟩ := hb vt h.self hx' (fun a => a)
     refine ⟨.obj ["value", "type"] [j, tj], p', by simp [htj, hj], ?_, hs⟩
     have hne : ("value" = "type") = False := by decide
-    simp [unmarshal, dynScan, dynValue, hof, hu]
+    simp [unmarshal, dynScan, dynValue, hof, hu, stripOpt_id_of_noOpt vt h.noOpt]
   · simp only [hd, Bool.false_eq_true, if_false]
     have hdv : t.isDyn = true → vt.isDyn = true := by
       intro ht
       simp only [ht, Bool.true_and, Bool.not_eq_true', Bool.not_eq_false] at hd
       exact hd
     have hx' : exactK t vt p = true := by
-      unfold exact at hx
+      unfold exact0 at hx
       by_cases ht : t.isDyn = true
       · have hv := isDyn_iff.mp (hdv ht)
         have ht' := isDyn_iff.mp ht
@@ -532,7 +542,7 @@ theorem rt_body (env : JEnv) : ∀ (p : Payload) (t vt : Ty), RT env.norm t vt p
     | _ => simp [wfP] at hw
 /-- list elements / map members -/
 theorem rt_all (env : JEnv) : ∀ (vs : List Payload) (e ve : Ty),
-    (∀ v ∈ vs, RT env.norm e ve v) → (∀ v ∈ vs, exact e ve v = true) →
+    (∀ v ∈ vs, RT env.norm e ve v) → (∀ v ∈ vs, exact0 e ve v = true) →
     ∃ js vals, marshalAll env e ve vs = .ok js ∧ unmarshalAll env js e = .ok vals ∧
       (∀ x ∈ vals, x.ty = ve) ∧ sameL (vals.map (·.v)) vs = true
   | [], _, _, _, _ => ⟨[], [], rfl, rfl, by simp, rfl⟩
